@@ -660,4 +660,494 @@ theorem mspecs_all (s : Src) (n : Nat) : MSpecs s n := by
 
 theorem getPattern_mono (s : Src) (fuel p : Nat) : Mono p (getPattern s fuel p) := (mspecs_all s fuel).pattern p
 
+/-! ### where a pattern can end -/
+
+theorem getTextSlice_term {s : Src} {p start stop : Nat} {nb : Bool} {term : Termination} {q : Nat}
+    (h : getTextSlice s p = .ok (start, stop, nb, term) q) :
+    (term = .lineFeed → LS s q) ∧ (term = .crlf → s[q]? = some 10) := by
+  unfold getTextSlice at h
+  split at h
+  · simp at h; obtain ⟨⟨_, _, _, rfl⟩, _⟩ := h; simp
+  · split at h
+    · simp at h; obtain ⟨⟨_, _, _, rfl⟩, _⟩ := h; simp
+    · rename_i e he
+      split at h
+      · cases h
+      · rename_i h10
+        split at h
+        · simp at h; obtain ⟨⟨_, _, _, rfl⟩, rfl⟩ := h; simp [h10]
+        · simp at h; obtain ⟨⟨_, _, _, rfl⟩, rfl⟩ := h; simp; exact LS_succ h10
+      · simp at h; obtain ⟨⟨_, _, _, rfl⟩, _⟩ := h; simp
+      · cases h
+
+theorem getPatternLoop_LSE (s : Src) (n : Nat) (st : PatState) (p : Nat)
+    (h : st.role = .lineStart → NextOk s p) :
+    ∀ st' q, getPatternLoop s n st p = .ok st' q → LSE s q := by
+  induction n generalizing st p with
+  | zero => intro st' q hq; simp [getPatternLoop] at hq
+  | succ n ih =>
+    intro st' q hq
+    simp only [getPatternLoop] at hq
+    split at hq
+    · rename_i hlt
+      split at hq
+      · split at hq
+        · exact ih _ _ (by simp) st' q hq
+        all_goals cases hq
+      · split at hq
+        · rename_i hpre
+          have hle := (skipBlankInline_after s p).le
+          have hsp := skipBlankInline_spaces s p
+          split at hpre
+          · rename_i hrole
+            have hrole : st.role = .lineStart := by simpa using hrole
+            have hls := h hrole
+            cases hs1 : s[skipBlankInline s p]? with
+            | none =>
+              simp only [hs1, R.ok.injEq] at hq
+              obtain ⟨_, rfl⟩ := hq
+              right; simpa using hs1
+            | some b =>
+              simp only [hs1] at hq hpre
+              by_cases hind : skipBlankInline s p - p = 0
+              · simp only [hind, beq_self_eq_true, if_true, R.ok.injEq] at hq hpre
+                obtain ⟨_, rfl⟩ := hq
+                have hpp : skipBlankInline s p = p := by omega
+                rw [hpp] at hpre ⊢
+                left
+                rcases hls with hls | hls | hls
+                · exact hls
+                · omega
+                · have : isEol s p = true := by simp [isEol, hls]
+                  simp [this] at hpre
+              · have hne : (skipBlankInline s p - p == 0) = false := by simpa using hind
+                simp only [hne, Bool.false_eq_true, if_false] at hq hpre
+                split at hpre
+                · rename_i hc
+                  simp only [hc, if_true, R.ok.injEq] at hq
+                  obtain ⟨_, rfl⟩ := hq
+                  left
+                  rcases hls with hls | hls | hls
+                  · exact hls
+                  · omega
+                  · have := hsp p (Nat.le_refl _) (by omega)
+                    rw [this] at hls; cases hls
+                · cases hpre
+          · cases hpre
+        · rename_i indent p1 hpre
+          split at hq
+          · rename_i start stop nb term q' hts
+            split at hq
+            · refine ih _ _ ?_ st' q hq
+              intro hrole
+              have ht := getTextSlice_term hts
+              cases term with
+              | lineFeed => exact Or.inl (ht.1 rfl)
+              | crlf => exact Or.inr (Or.inr (ht.2 rfl))
+              | placeableStart => simp at hrole
+              | eof => simp at hrole
+            · cases hq
+          all_goals cases hq
+    · cases hq; exact Or.inr (by omega)
+
+theorem getPattern_LSE {s : Src} {n p : Nat} {o : Option (Pattern Span)} {q : Nat}
+    (h : getPattern s n p = .ok o q) : LSE s q := by
+  cases n with
+  | zero => simp [getPattern] at h
+  | succ n =>
+    have key : ∀ role p2, (role = .lineStart → NextOk s p2) →
+        (match getPatternLoop s n ⟨[], none, none, role⟩ p2 with
+          | .ok st q =>
+            (match st.lastNonBlank with
+             | some lnb =>
+               (match finishElements s st.commonIndent lnb 0 st.elements with
+                | some els => .ok (some els) q
+                | none => .panic "get_pattern slice")
+             | none => .ok none q)
+          | .err e q => .err e q
+          | .panic m => .panic m
+          | .fuel => .fuel) = R.ok o q → LSE s q := by
+      intro role p2 hrole hm
+      split at hm
+      · rename_i st q' hl
+        have := getPatternLoop_LSE s n _ p2 hrole st q' hl
+        split at hm
+        · split at hm
+          · cases hm; exact this
+          · cases hm
+        · cases hm; exact this
+      all_goals cases hm
+    simp only [getPattern] at h
+    cases hE : skipEol s (skipBlankInline s p) with
+    | none =>
+      rw [hE] at h
+      exact key _ _ (by simp) h
+    | some q0 =>
+      rw [hE] at h
+      exact key _ _ (fun _ => (skipBlankBlock_LSE (Or.inl (skipEol_LS hE))).next) h
+
+/-! ### attributes, messages, terms: cursor on success, error position on failure -/
+
+theorem getAttribute_mono (s : Src) (fuel p : Nat) : Mono p (getAttribute s fuel p) := by
+  unfold getAttribute
+  rcases (getIdentifier_mono s p).cases with ⟨id, q, hr, h1⟩ | ⟨e, q, hr, h1⟩ | ⟨m, hr⟩ | hr <;> simp only [hr] <;>
+    try mono_close
+  have h2 := (skipBlankInline_after s q).le
+  rcases (expectByte_mono s (skipBlankInline s q) 61).cases with ⟨_, q2, hr2, h3⟩ | ⟨e2, q2, hr2, h3⟩ | ⟨m, hr2⟩ | hr2 <;>
+    simp only [hr2] <;> try mono_close
+  rcases (getPattern_mono s fuel q2).cases with ⟨o, q3, hr3, h4⟩ | ⟨e3, q3, hr3, h4⟩ | ⟨m, hr3⟩ | hr3 <;>
+    simp only [hr3] <;> try mono_close
+  cases o <;> mono_close
+
+theorem getAttribute_LSE {s : Src} {fuel p : Nat} {a : Attribute Span} {q : Nat}
+    (h : getAttribute s fuel p = .ok a q) : LSE s q := by
+  unfold getAttribute at h
+  split at h
+  · simp only [] at h
+    split at h
+    · split at h
+      · rename_i hp; cases h; exact getPattern_LSE hp
+      all_goals cases h
+    all_goals cases h
+  all_goals cases h
+
+theorem getAttributesGo_post (s : Src) (fuel n : Nat) (acc : List (Attribute Span)) (p : Nat) (hp : LSE s p) :
+    ∀ attrs q, getAttributesGo s fuel n acc p = .ok attrs q → p ≤ q ∧ LSE s q := by
+  induction n generalizing acc p with
+  | zero => intro attrs q h; simp [getAttributesGo] at h
+  | succ n ih =>
+    intro attrs q h
+    simp only [getAttributesGo] at h
+    split at h
+    · cases h; exact ⟨Nat.le_refl _, hp⟩
+    · split at h
+      · rename_i a q' ha
+        have h1 := (skipBlankInline_after s p).le
+        have h2 := takeByteIf_le s (skipBlankInline s p) 46
+        have h3 := getAttribute_mono s fuel (takeByteIf s (skipBlankInline s p) 46).fst
+        rw [ha] at h3
+        simp only [mono_ok] at h3
+        have := ih _ q' (getAttribute_LSE ha) attrs q h
+        exact ⟨by omega, this.2⟩
+      · cases h; exact ⟨Nat.le_refl _, hp⟩
+      · cases h
+      · cases h
+
+theorem getAttributesGo_noErr (s : Src) (fuel n : Nat) (acc : List (Attribute Span)) (p : Nat) :
+    ∀ e q, getAttributesGo s fuel n acc p ≠ .err e q := by
+  induction n generalizing acc p with
+  | zero => intro e q h; simp [getAttributesGo] at h
+  | succ n ih =>
+    intro e q h
+    simp only [getAttributesGo] at h
+    split at h
+    · cases h
+    · split at h
+      · exact ih _ _ e q h
+      all_goals cases h
+
+/-- postcondition of an entry parser started at `p`: on success the cursor is after `p` and satisfies
+`Q`; the error position is at or after `lo` -/
+def Post {α : Type} (Q : Nat → Prop) (p lo : Nat) (r : R α) : Prop :=
+  match r with
+  | .ok _ q => p < q ∧ Q q
+  | .err e _ => lo ≤ e.posStart
+  | .panic _ => True
+  | .fuel => True
+
+@[simp] theorem post_ok {α : Type} (Q : Nat → Prop) (p lo : Nat) (a : α) (q : Nat) :
+    Post Q p lo (.ok a q : R α) ↔ (p < q ∧ Q q) := Iff.rfl
+@[simp] theorem post_err {α : Type} (Q : Nat → Prop) (p lo : Nat) (e : PErr) (q : Nat) :
+    Post Q p lo (.err e q : R α) ↔ lo ≤ e.posStart := Iff.rfl
+@[simp] theorem post_panic {α : Type} (Q : Nat → Prop) (p lo : Nat) (m : String) :
+    Post Q p lo (.panic m : R α) ↔ True := Iff.rfl
+@[simp] theorem post_fuel {α : Type} (Q : Nat → Prop) (p lo : Nat) : Post Q p lo (.fuel : R α) ↔ True := Iff.rfl
+
+macro "post_close" : tactic =>
+  `(tactic| first
+    | trivial
+    | (simp only [↓reduceIte, Bool.false_eq_true, post_ok, post_err, post_panic, post_fuel, mkErr, mkErr2]; omega)
+    | omega)
+
+/-- `get_message` -/
+theorem getMessage_post (s : Src) (fuel es p : Nat) (hes : p ≤ es) :
+    Post (LSE s) p p (getMessage s fuel es p) := by
+  unfold getMessage
+  rcases (getIdentifier_mono s p).cases with ⟨id, q, hr, h1⟩ | ⟨e, q, hr, h1⟩ | ⟨m, hr⟩ | hr <;> simp only [hr] <;>
+    try post_close
+  have h1 := getIdentifier_ok_lt hr
+  have h2 := (skipBlankInline_after s q).le
+  rcases (expectByte_mono s (skipBlankInline s q) 61).cases with ⟨_, q2, hr2, h3⟩ | ⟨e2, q2, hr2, h3⟩ | ⟨m, hr2⟩ | hr2 <;>
+    simp only [hr2] <;> try post_close
+  rcases (getPattern_mono s fuel q2).cases with ⟨o, q3, hr3, h4⟩ | ⟨e3, q3, hr3, h4⟩ | ⟨m, hr3⟩ | hr3 <;>
+    simp only [hr3] <;> try post_close
+  have h5 := skipBlankBlock_le s q3
+  have hl := skipBlankBlock_LSE (getPattern_LSE hr3).next
+  cases hr5 : getAttributes s fuel (skipBlankBlock s q3).fst with
+  | ok attrs q5 =>
+    have := getAttributesGo_post s fuel _ [] _ hl attrs q5 hr5
+    simp only []
+    split
+    · post_close
+    · exact ⟨by omega, this.2⟩
+  | err e q5 => exact (getAttributesGo_noErr s fuel _ [] _ e q5 hr5).elim
+  | panic m => trivial
+  | fuel => trivial
+
+/-- `get_term` -/
+theorem getTerm_post (s : Src) (fuel es p : Nat) (hes : p ≤ es) :
+    Post (LSE s) p p (getTerm s fuel es p) := by
+  unfold getTerm
+  rcases (expectByte_mono s p 45).cases with ⟨_, p0, hr0, h0⟩ | ⟨e, q, hr0, h0⟩ | ⟨m, hr0⟩ | hr0 <;> simp only [hr0] <;>
+    try post_close
+  rcases (getIdentifier_mono s p0).cases with ⟨id, q, hr, h1⟩ | ⟨e, q, hr, h1⟩ | ⟨m, hr⟩ | hr <;> simp only [hr] <;>
+    try post_close
+  have h1 := getIdentifier_ok_lt hr
+  have h2 := (skipBlankInline_after s q).le
+  rcases (expectByte_mono s (skipBlankInline s q) 61).cases with ⟨_, q2, hr2, h3⟩ | ⟨e2, q2, hr2, h3⟩ | ⟨m, hr2⟩ | hr2 <;>
+    simp only [hr2] <;> try post_close
+  have h3' := (skipBlankInline_after s q2).le
+  rcases (getPattern_mono s fuel (skipBlankInline s q2)).cases with ⟨o, q3, hr3, h4⟩ | ⟨e3, q3, hr3, h4⟩ | ⟨m, hr3⟩ | hr3 <;>
+    simp only [hr3] <;> try post_close
+  have h5 := skipBlankBlock_le s q3
+  have hl := skipBlankBlock_LSE (getPattern_LSE hr3).next
+  cases hr5 : getAttributes s fuel (skipBlankBlock s q3).fst with
+  | ok attrs q5 =>
+    have := getAttributesGo_post s fuel _ [] _ hl attrs q5 hr5
+    simp only []
+    cases o with
+    | none => post_close
+    | some v => exact ⟨by omega, this.2⟩
+  | err e q5 => exact (getAttributesGo_noErr s fuel _ [] _ e q5 hr5).elim
+  | panic m => trivial
+  | fuel => trivial
+
+/-! ### comments -/
+
+theorem getCommentLevel_spec (s : Src) (p : Nat) :
+    ∃ l, getCommentLevel s p = (l, p + l) ∧ l ≤ 3 ∧ (∀ j, j < l → s[p + j]? = some 35) ∧ (l = 0 → s[p]? ≠ some 35) := by
+  unfold getCommentLevel
+  simp only [isCurrentByte_iff]
+  split
+  · rename_i h0
+    split
+    · rename_i h1
+      split
+      · rename_i h2
+        refine ⟨3, rfl, by omega, ?_, by omega⟩
+        intro j hj
+        have : j = 0 ∨ j = 1 ∨ j = 2 := by omega
+        rcases this with rfl | rfl | rfl <;> assumption
+      · refine ⟨2, rfl, by omega, ?_, by omega⟩
+        intro j hj
+        have : j = 0 ∨ j = 1 := by omega
+        rcases this with rfl | rfl <;> assumption
+    · refine ⟨1, rfl, by omega, ?_, by omega⟩
+      intro j hj
+      have : j = 0 := by omega
+      subst this; assumption
+  · rename_i h0
+    exact ⟨0, rfl, by omega, fun j hj => by omega, fun _ => h0⟩
+
+theorem isEol_of_none {s : Src} {p : Nat} (h : s.size ≤ p) : isEol s p = true := by
+  have : s[p]? = none := by simp; omega
+  simp [isEol, this]
+
+theorem not_isEol_ne {s : Src} {p : Nat} (h : ¬ isEol s p = true) : s[p]? ≠ some 10 := by
+  intro h10; apply h; simp [isEol, h10]
+
+/-- the end of a comment line: an end of line, with no `\n` before it -/
+theorem commentLineEndGo_eol (s : Src) (n p : Nat) (hn : s.size ≤ p + n) :
+    p ≤ commentLineEndGo s n p ∧ isEol s (commentLineEndGo s n p) = true ∧
+      ∀ j, p ≤ j → j < commentLineEndGo s n p → s[j]? ≠ some 10 := by
+  induction n generalizing p with
+  | zero =>
+    simp only [commentLineEndGo]
+    exact ⟨Nat.le_refl _, isEol_of_none (by omega), fun j h1 h2 => by omega⟩
+  | succ n ih =>
+    simp only [commentLineEndGo]
+    split
+    · rename_i hc; exact ⟨Nat.le_refl _, hc, fun j h1 h2 => by omega⟩
+    · rename_i hc
+      have := ih (p + 1) (by omega)
+      refine ⟨by omega, this.2.1, ?_⟩
+      intro j h1 h2
+      by_cases hj : j = p
+      · subst hj; exact not_isEol_ne hc
+      · exact this.2.2 j (by omega) h2
+
+theorem commentLineEnd_eol (s : Src) (p : Nat) :
+    p ≤ commentLineEndGo s (s.size - p) p ∧ isEol s (commentLineEndGo s (s.size - p) p) = true ∧
+      ∀ j, p ≤ j → j < commentLineEndGo s (s.size - p) p → s[j]? ≠ some 10 :=
+  commentLineEndGo_eol s _ p (by omega)
+
+/-- after a line whose first byte is not a message/term start: the cursor behind the line's end of line is a
+line start (or EOF), and no message/term start was passed -/
+theorem line_step {s : Src} {pc e : Nat} (hpc : ¬ RealStart s pc) (hle : pc ≤ e) (heol : isEol s e = true)
+    (hnl : ∀ j, pc ≤ j → j < e → s[j]? ≠ some 10) :
+    e ≤ (skipEol s e).getD e ∧ LSE s ((skipEol s e).getD e) ∧ NoRS s pc ((skipEol s e).getD e) := by
+  have hz : NoRS s pc (e + 1) := (noRS_single hpc).trans (noRS_of_noNl hnl)
+  rcases isEol_cases heol with h | h | ⟨h, h'⟩
+  · have : s.size ≤ e := by simpa using h
+    have he : skipEol s e = none := by simp [skipEol, h]
+    rw [he]
+    exact ⟨Nat.le_refl _, Or.inr this, hz.mono (Nat.le_refl _) (by simp)⟩
+  · have he : skipEol s e = some (e + 1) := by simp [skipEol, h]
+    rw [he]
+    exact ⟨by simp, Or.inl (LS_succ h), hz⟩
+  · have he : skipEol s e = some (e + 2) := by simp [skipEol, h, h']
+    rw [he]
+    refine ⟨by simp, Or.inl (LS_succ h'), ?_⟩
+    simp only [Option.getD_some]
+    have hnl' : ∀ j, pc ≤ j → j < e + 1 → s[j]? ≠ some 10 := by
+      intro j h1 h2
+      by_cases hj : j = e
+      · subst hj; rw [h]; decide
+      · exact hnl j h1 (by omega)
+    exact (noRS_single hpc).trans (noRS_of_noNl hnl')
+
+theorem not_realStart_of_byte {s : Src} {p : Nat} {b : UInt8} (h : s[p]? = some b) (hb : isReal b = false) :
+    ¬ RealStart s p := by
+  intro ⟨_, b', hb', hr⟩
+  rw [h] at hb'; cases hb'; rw [hb] at hr; cases hr
+
+theorem not_realStart_hash {s : Src} {p : Nat} (h : s[p]? = some 35) : ¬ RealStart s p :=
+  not_realStart_of_byte h (by decide)
+
+/-- postcondition of the `get_comment` loop (comment started at `p0`) -/
+def CPost (s : Src) (p0 : Nat) (content : List Span) (r : R (List Span × Nat)) : Prop :=
+  match r with
+  | .ok _ q => p0 ≤ q ∧ NextOk s q ∧ NoRS s p0 q
+  | .err e q => content = [] ∧ p0 ≤ e.posStart ∧ ∃ l, 1 ≤ l ∧ l ≤ 3 ∧ q = p0 + l ∧ ∀ j, j < l → s[p0 + j]? = some 35
+  | .panic _ => True
+  | .fuel => True
+
+theorem CPost.of_append {s : Src} {p0 : Nat} {content : List Span} {line : Span} {r : R (List Span × Nat)}
+    (h : CPost s p0 (content ++ [line]) r) : CPost s p0 content r := by
+  cases r with
+  | ok a q => exact h
+  | err e q => exact absurd h.1 (by simp)
+  | panic m => trivial
+  | fuel => trivial
+
+theorem getCommentGo_post (s : Src) (n level : Nat) (content : List Span) (pc p0 : Nat)
+    (hinv : (level = 0 ∧ content = [] ∧ pc = p0 ∧ s[pc]? = some 35) ∨
+      (content ≠ [] ∧ p0 < pc ∧ LSE s pc ∧ NoRS s p0 pc)) :
+    CPost s p0 content (getCommentGo s n level content pc) := by
+  induction n generalizing level content pc with
+  | zero => simp [getCommentGo, CPost]
+  | succ n ih =>
+    have hz0 : p0 ≤ pc ∧ NoRS s p0 pc := by
+      rcases hinv with ⟨_, _, rfl, _⟩ | ⟨_, h1, _, h2⟩
+      · exact ⟨Nat.le_refl _, NoRS.refl _ _⟩
+      · exact ⟨by omega, h2⟩
+    simp only [getCommentGo]
+    split
+    · rename_i hlt
+      obtain ⟨l, hl, hl3, hbytes, hl0⟩ := getCommentLevel_spec s pc
+      rw [hl]
+      simp only []
+      -- the recursive step shared by the two `get_comment_line` arms
+      have step : ∀ p2, 1 ≤ l → pc + l ≤ p2 → (∀ j, pc ≤ j → j < p2 → s[j]? ≠ some 10) →
+          CPost s p0 content
+            (match getCommentLine s p2 with
+             | .ok line q => getCommentGo s n l (content ++ [line]) ((skipEol s q).getD q)
+             | .err e q => .err e q
+             | .panic m => .panic m
+             | .fuel => .fuel) := by
+        intro p2 hl1 hp2 hnl
+        unfold getCommentLine
+        simp only []
+        have he := commentLineEnd_eol s p2
+        generalize commentLineEndGo s (s.size - p2) p2 = e at he
+        cases hsl : slice s p2 e with
+        | none => trivial
+        | some sp =>
+          simp only []
+          have hnl' : ∀ j, pc ≤ j → j < e → s[j]? ≠ some 10 := by
+            intro j h1 h2
+            by_cases hj : j < p2
+            · exact hnl j h1 hj
+            · exact he.2.2 j (by omega) h2
+          have hpc : ¬ RealStart s pc := not_realStart_hash (by simpa using hbytes 0 (by omega))
+          have hs := line_step hpc (by omega) he.2.1 hnl'
+          refine (ih l (content ++ [sp]) _ (Or.inr ⟨by simp, by omega, hs.2.1, hz0.2.trans hs.2.2⟩)).of_append
+      split
+      · -- not a comment line: `ptr -= 1`
+        rename_i hl0'
+        have hl0' : l = 0 := by simpa using hl0'
+        subst hl0'
+        rcases hinv with ⟨_, _, _, h35⟩ | ⟨hc, hlt0, hlse, hz⟩
+        · exact absurd h35 (hl0 rfl)
+        · have h1 : 1 ≤ pc := by omega
+          simp only [usub, Nat.add_zero, h1, if_true]
+          refine ⟨by omega, ?_, hz.mono (Nat.le_refl _) (by omega)⟩
+          rcases hlse with hls | hsz
+          · rcases hls with h0 | h10
+            · omega
+            · exact Or.inr (Or.inr h10)
+          · omega
+      · rename_i hlne
+        have hl1 : 1 ≤ l := by
+          have : l ≠ 0 := by simpa using hlne
+          omega
+        split
+        · -- a comment of another level: `ptr -= level`
+          rename_i hdiff
+          simp only [usub, Nat.le_add_left, if_true, Nat.add_sub_cancel]
+          rcases hinv with ⟨i0, _⟩ | ⟨hc, hlt0, hlse, hz⟩
+          · simp [i0] at hdiff
+          · exact ⟨by omega, hlse.next, hz⟩
+        · have hnl0 : ∀ j, pc ≤ j → j < pc + l → s[j]? ≠ some 10 := by
+            intro j h1 h2
+            have := hbytes (j - pc) (by omega)
+            rw [show pc + (j - pc) = j by omega] at this
+            rw [this]; decide
+          split
+          · exact step (pc + l) hl1 (Nat.le_refl _) hnl0
+          · cases hx : expectByte s (pc + l) 32 with
+            | ok u p2 =>
+              simp only []
+              have hx' : p2 = pc + l + 1 ∧ s[pc + l]? = some 32 := by
+                unfold expectByte at hx
+                split at hx
+                · rename_i hc
+                  cases hx
+                  exact ⟨rfl, (isCurrentByte_iff _ _ _).mp hc⟩
+                · cases hx
+              obtain ⟨rfl, h32⟩ := hx'
+              refine step (pc + l + 1) hl1 (by omega) ?_
+              intro j h1 h2
+              by_cases hj : j = pc + l
+              · subst hj; rw [h32]; decide
+              · exact hnl0 j h1 (by omega)
+            | err e q =>
+              simp only []
+              have hx' : q = pc + l ∧ e.posStart = pc + l := by
+                unfold expectByte at hx
+                split at hx
+                · cases hx
+                · cases hx; exact ⟨rfl, rfl⟩
+              split
+              · rename_i hce
+                have hce : content = [] := by simpa using hce
+                rcases hinv with ⟨_, _, hpc, _⟩ | ⟨hc, _⟩
+                · subst hpc
+                  exact ⟨hce, by omega, l, hl1, hl3, hx'.1, hbytes⟩
+                · exact absurd hce hc
+              · rename_i hce
+                simp only [usub, Nat.le_add_left, if_true, Nat.add_sub_cancel]
+                rcases hinv with ⟨_, hc, _⟩ | ⟨hc, hlt0, hlse, hz⟩
+                · simp [hc] at hce
+                · exact ⟨by omega, hlse.next, hz⟩
+            | panic m => trivial
+            | fuel => trivial
+    · rename_i hge
+      rcases hinv with ⟨_, _, _, h35⟩ | ⟨hc, hlt0, hlse, hz⟩
+      · have := get_lt h35; omega
+      · exact ⟨by omega, hlse.next, hz⟩
+
+theorem getComment_post {s : Src} {p : Nat} (h : s[p]? = some 35) : CPost s p [] (getComment s p) :=
+  getCommentGo_post s _ 0 [] p p (Or.inl ⟨rfl, rfl, rfl, h⟩)
+
 end FluentProofs.Parser
